@@ -517,6 +517,16 @@ def _(E, a, o):
     return _htm(E, o, cap=4).bincount(0.01, 8.0, o.get("nbin") or 4, a[0], a[1], a[2], a[3], scale=sc, getbins=o.get("values", False))
 
 
+@site("HTM.bincount(htmid2)", "htm", ["lon", "lat", "lon", "lat"])
+def _(E, a, o):
+    # the documented htmid2= option: ids computed by an earlier lookup_id call are the CALLER's array too
+    h = _htm(E, o, cap=4)
+    ids = np.asarray(h.lookup_id(a[2], a[3]))
+    arg, g = present.make(ids, {"kind": o.get("idpres", "plain"), "stride": 2, "off": 1})
+    E["extra"].append(("htmid2", g))
+    return h.bincount(0.01, 8.0, o.get("nbin") or 4, a[0], a[1], a[2], a[3], htmid2=arg, getbins=False)
+
+
 @site("HTM.cylmatch", "htm", ["lon", "lat", "z", "lon", "lat", "z"])
 def _(E, a, o):
     return _htm(E, o).cylmatch(a[0], a[1], a[2], a[3], a[4], a[5], o.get("radius", 5.0), 0.5, maxmatch=o.get("maxmatch", 5) or 5)
@@ -566,12 +576,14 @@ def _opts(r, name):
     o["nsig"] = pick(r, [1.0, 2.0, 3.5])
     o["niter"] = r.randrange(0, 5)
     o["y"] = chance(r, 0.7)
+    o["idpres"] = pick(r, ["plain", "plain", "strided", "swapped", "offset"])
     return o
 
 
 def plan(S, prop, mode, tier, avoid):
     cfg = S.py("config")
-    n = wpick(cfg, [(1, 1), (2, 1), (3, 1), (cfg.randrange(4, 12), 4), (cfg.randrange(12, 40), 3)])
+    n = wpick(cfg, [(1, 1), (2, 1), (3, 1), (cfg.randrange(4, 12), 4), (cfg.randrange(12, 40), 3),
+                    (cfg.randrange(1024, 2100), 0.35)])
     fams = [f for f in FAMILIES if chance(cfg, 0.6)] or [pick(cfg, FAMILIES)]
     names = [nm for nm in NAMES if SITES[nm][0] in fams]
     r = S.py("session")
@@ -592,7 +604,7 @@ def plan(S, prop, mode, tier, avoid):
                     rec["d"] = r.randrange(1, 5)
                 pool.append(rec)
                 idx.append(len(pool) - 1)
-        ops.append({"k": name, "a": idx, "o": _opts(r, name), "c": 0})
+        ops.append({"k": name, "a": idx, "o": _opts(r, name), "c": 0, "tmp": chance(r, 0.3)})
     return {"cfg": {"n": n}, "pool": pool, "ops": ops}
 
 
@@ -603,10 +615,25 @@ def describe(script):
 
 # --------------------------------------------------------------------------- execute
 
+class _Temporaries(object):
+    """Hands every argument over as a view object created in the call expression itself (`z[:]`): nothing but the
+    call refers to it, exactly as in `cosmo.Da(0.0, z[a:b])`.  The memory is still the caller's."""
+
+    def __init__(self, args):
+        self._args = args
+
+    def __len__(self):
+        return len(self._args)
+
+    def __getitem__(self, i):
+        a = self._args[i]
+        return a[...] if isinstance(a, np.ndarray) else a
+
+
 def _env():
     import esutil
     from esutil import numpy_util, stat, coords, cosmology, htm
-    return {"nu": numpy_util, "stat": stat, "coords": coords, "cosmology": cosmology, "htm": htm, "cache": {}}
+    return {"nu": numpy_util, "stat": stat, "coords": coords, "cosmology": cosmology, "htm": htm, "cache": {}, "extra": []}
 
 
 def execute(script, run, env):
@@ -647,9 +674,14 @@ def execute(script, run, env):
         st = "fam=%s|pool=%d" % (fam, min(4, len(live)))
         run.states.add(st)
         run.trans.add("%s|%s|%s" % (st, name, ",".join(live[i][1]["kind"] for i in op["a"])))
+        del E["extra"][:]
+        call_args = args
+        if op.get("tmp"):
+            call_args = _Temporaries(args)
+            run.fault("arguments_passed_as_temporaries")
         with np.errstate(all="ignore"), contextlib.redirect_stdout(_NULL):
             try:
-                fn(E, args, op.get("o", {}))
+                fn(E, call_args, op.get("o", {}))
                 out = "ok"
             except Exception as e:
                 out = "error(%s)" % type(e).__name__
@@ -673,6 +705,13 @@ def execute(script, run, env):
                                             for k in op["a"]),
                             "its argument," if handed else "an array it was NOT handed in this call:", i, rec["kind"],
                             g["kind"], n, bad))
+        for nm, g in E["extra"]:
+            run.checks += 1
+            bad = present.changed(g, run)
+            if bad:
+                run.fail("own.session", {"call": name, "family": fam, "kind": nm, "present": g["kind"], "handed": True},
+                         "%s modified the caller's %s array (presented %s, n=%d): %s" % (name, nm, g["kind"], n, bad))
+        del E["extra"][:]
         if run.failures:
             break
     run.nontrivial = bool(script["ops"])
